@@ -73,6 +73,10 @@ def square_term(t):
         return u
     if z3.is_rational_value(t) or z3.is_int_value(t):
         return z3.simplify(t * t)
+    if z3.is_app(t) and t.decl().kind() == z3.Z3_OP_ITE:
+        a, b = t.arg(1), t.arg(2)
+        if any(z3.is_app(x) and x.decl().kind() == z3.Z3_OP_UNINTERPRETED and x.decl().name() == 'SQRT' for x in (a, b)):
+            return z3.If(t.arg(0), square_term(a), square_term(b))
     if Mode.square == 'exact':
         return t * t
     r = SQ_F(t)
